@@ -80,6 +80,31 @@ theorem no_tail_without_tco (fuel : Nat) (cfg : Cfg) (htco : cfg.tco = false) (f
   · intro f args; exact (Res.isTail_false_iff _).mp (H.callNamed fr f args tail st (by simp [htco])) a
   · intro f args; exact (Res.isTail_false_iff _).mp (H.builtin fr f args tail st (by simp [htco])) a
 
+/-- `unwrap_value` is never applied to a TailCall: the model turns every such application into the
+outcome `stuck "tail escaped"`, and no evaluation whatsoever — any fuel, configuration, frame,
+expression, with or without the tail slot; calls, trampoline, lists, declarations, programs —
+produces it. -/
+theorem tail_escape_unreachable (fuel : Nat) (cfg : Cfg) (fr : Frame) (st : St) :
+    (∀ e tail, (eval fuel cfg fr e tail st).1 ≠ .stuck "tail escaped") ∧
+    (∀ c args tail, (callVal fuel cfg fr c args tail st).1 ≠ .stuck "tail escaped") ∧
+    (∀ h c vs, (callUser fuel cfg h c vs st).1 ≠ .stuck "tail escaped") ∧
+    (∀ h c vs rec, (tramp fuel cfg h c vs rec st).1 ≠ .stuck "tail escaped") ∧
+    (∀ es, (evalList fuel cfg fr es st).1 ≠ .error (.stuck "tail escaped")) ∧
+    (∀ ds, (evalDecls fuel cfg fr ds st).1 ≠ .error (.stuck "tail escaped")) ∧
+    (∀ ds, (runProgram fuel cfg ds).1 ≠ .error (.stuck "tail escaped")) := by
+  have H := noEscAt cfg fuel
+  have key : ∀ r : Res, r.isEsc = false → r ≠ .stuck "tail escaped" := by
+    intro r h he; subst he; simp at h
+  refine ⟨?_, ?_, ?_, ?_, ?_, ?_, ?_⟩
+  · intro e tail; exact key _ (H.eval fr e tail st)
+  · intro c args tail; exact key _ (H.callVal fr c args tail st)
+  · intro h c vs; exact key _ (H.callUser h c vs st)
+  · intro h c vs rec; exact key _ (H.tramp h c vs rec st)
+  · intro es h; have := H.evalList fr es st; rw [h] at this; simp [exNoEsc] at this
+  · intro ds h; have := H.evalDecls fr ds st; rw [h] at this; simp [exNoEsc] at this
+  · intro ds h; have := H.evalDecls { env := [], self := none, height := 0 } ds {}
+    rw [runProgram] at h; rw [h] at this; simp [exNoEsc] at this
+
 /-! ## 2. Only a self-call by name in tail position takes the tail path -/
 
 /-- A tail call can only come out of an evaluation that was offered the tail slot, with tco on, in
